@@ -91,12 +91,23 @@ class Finders:
 
   def _search_duplicate(self, gfa_line):
     if gfa_line.record_type == "L":
-      return self._search_link(gfa_line.oriented_from, gfa_line.oriented_to,
-                               gfa_line.alignment)
+      previous = self._search_link(gfa_line.oriented_from,
+                                   gfa_line.oriented_to, gfa_line.alignment)
+      if previous is None:
+        previous = self.__search_edge_id(gfa_line)
+      return previous
+    elif gfa_line.record_type == "C":
+      return self.__search_edge_id(gfa_line)
     elif gfa_line.record_type in self.RECORDS_WITH_NAME:
       return self.line(gfa_line.name)
     else:
       return None
+
+  def __search_edge_id(self, gfa_line):
+    previous = self.line(gfa_line.get("ID"))
+    if previous is not None and not previous.virtual:
+      return previous
+    return None
 
   def _search_link(self, orseg1, orseg2, cigar):
     s = self.segment(orseg1.line)
